@@ -208,7 +208,8 @@ class Ctx:
             for job, r in ex.map(one, jobs):
                 k, tag, tr, out, e = job
                 if r.rc != 0:
-                    raise Machinery("trace validation failed to run: %s rc=%s\n%s" % (module, r.rc, r.stdout[-4000:]))
+                    i = r.stdout.find("Error:")
+                    raise Machinery("trace validation failed to run: %s rc=%s\n%s\n...\n%s" % (module, r.rc, r.stdout[max(0, i):i + 2500], r.stdout[-1500:]))
                 res = read_ndjson(out)
                 if not res or res[0].get("n") != len(shards[k]):
                     raise Machinery("trace validation did not consume the whole trace (%s)\n%s" % (module, r.stdout[-2000:]))
@@ -354,6 +355,10 @@ def finish(ctx, level_note_assumptions=()):
                                 (module, json.dumps(_shorten(rejs[0]["record"]))))
             violations.extend(still)
     replay_path = None
+    if not violations:
+        stale = os.path.join(os.environ.get("VERIF_REPLAY_DIR", os.path.join(VERIF, "replays")), "%s_%s_seed%d.json" % (ctx.pid, ctx.tier, ctx.seed))
+        if os.path.exists(stale):
+            os.remove(stale)
     if violations:
         rdir = os.environ.get("VERIF_REPLAY_DIR", os.path.join(VERIF, "replays"))
         os.makedirs(rdir, exist_ok=True)
